@@ -31,7 +31,8 @@ def read_file(filename):
     else:
         date_columns = {0: "year", 1: "month", 2: "day", 3: "hour"}
     # Look for header like this: #YY  MM DD hh mm Sep_Freq  < spec_1 (freq_1) spec_2 (freq_2) spec_3 (freq_3) ... >
-    if header.strip()[-1] == ">":  # Realtime file
+    realtime = header.strip()[-1] == ">"
+    if realtime:  # Realtime file
         df = pd.read_csv(f, delimiter=r"\s+", compression=compressed, header=None)
         df.index = pd.to_datetime(df[date_columns.keys()].rename(columns=date_columns))
         df = df.iloc[:, list(date_columns.keys())[-1] + 1 :]
@@ -54,6 +55,7 @@ def read_file(filename):
         df = df.iloc[:, list(date_columns.keys())[-1] + 1 :]
     f.close()
     df.name = name
+    df.attrs["realtime"] = realtime
     return df
 
 
@@ -126,12 +128,15 @@ def read_ndbc_ascii(filename, dirs=np.arange(0, 360, 10)):
         df_swr1 = read_file(filename[3])
         df_swr2 = read_file(filename[4])
         dirs = np.array(dirs)
+        # r1 and r2 are stored in hundredths in the history files
+        r1scale = 1.0 if df_swr1.attrs["realtime"] else 0.01
+        r2scale = 1.0 if df_swr2.attrs["realtime"] else 0.01
         specdens = construct_spectra(
             specdens,
             df_swdir.values.reshape(spshape),
             df_swdir2.values.reshape(spshape),
-            df_swr1.values.reshape(spshape),
-            df_swr2.values.reshape(spshape),
+            df_swr1.values.reshape(spshape) * r1scale,
+            df_swr2.values.reshape(spshape) * r2scale,
             dirs,
         )
     coords = OrderedDict(
